@@ -124,6 +124,7 @@ class FuncAnalysis:
         self.required = [a.arg for a in (fn.args.posonlyargs + fn.args.args)][:len(fn.args.posonlyargs + fn.args.args) - nd]
         self.count = 0
         self.in_call = []
+        self.depth = {}
 
     # -- expression translation
     def tr(self, node, env):
@@ -161,6 +162,7 @@ class FuncAnalysis:
             if isinstance(v, ast.Name) and idx:
                 ks = set(idx)
                 if len(ks) == 1:
+                    self.depth[v.id] = max(self.depth.get(v.id, 0), len(idx))
                     return Idx(v.id, idx[0])
                 return Other(src(node))
             # stype(a).integral : constructor inference on a public value
@@ -289,7 +291,7 @@ class FuncAnalysis:
         self.sites.append({
             'file': self.fname, 'func': self.qual, 'line': node.lineno, 'kind': kind,
             'ord': self.count, 'expr': expr, 'dims': list(dims), 'src': src(node)[:160],
-            'params': self.params, 'required': self.required, 'note': note,
+            'params': self.params, 'required': self.required, 'note': note, 'depth': dict(self.depth),
         })
 
     def clean(self, e):
